@@ -268,6 +268,9 @@ pub enum End {
 struct Rd<'a> {
     b: &'a [u8],
     at: usize,
+    /// Set when a string parameter of the current command is not valid UTF-8 (its reading as a
+    /// Rust `String` is then a choice of the reader, not of the DVI format).
+    non_utf8: bool,
 }
 
 impl<'a> Rd<'a> {
@@ -299,7 +302,11 @@ impl<'a> Rd<'a> {
         Some(x as i32)
     }
     fn string(&mut self, n: usize) -> Option<String> {
-        Some(String::from_utf8_lossy(self.take(n)?).into_owned())
+        let raw = self.take(n)?;
+        if std::str::from_utf8(raw).is_err() {
+            self.non_utf8 = true;
+        }
+        Some(String::from_utf8_lossy(raw).into_owned())
     }
 }
 
@@ -388,20 +395,33 @@ fn decode_one(r: &mut Rd, o: u8, dev: Dev) -> Option<DOp> {
 
 /// Decode a whole byte string: the operations before the first error, and how it ended.
 pub fn decode(b: &[u8], dev: Dev) -> (Vec<DOp>, End) {
-    let mut r = Rd { b, at: 0 };
+    let (ops, _, end) = decode_ex(b, dev);
+    (ops, end)
+}
+
+/// As [`decode`]; the second component says, per operation, whether one of its string parameters
+/// (font area/name, preamble comment) is not valid UTF-8 in the file. For those the `String` in the
+/// returned op is `from_utf8_lossy` of the bytes, which is one possible reading, not THE reading.
+pub fn decode_ex(b: &[u8], dev: Dev) -> (Vec<DOp>, Vec<bool>, End) {
+    let mut r = Rd { b, at: 0, non_utf8: false };
     let mut ops = vec![];
+    let mut flags = vec![];
     while r.at < b.len() {
         let o = b[r.at];
         r.at += 1;
         if o >= 250 {
-            return (ops, End::BadOpcode(o));
+            return (ops, flags, End::BadOpcode(o));
         }
+        r.non_utf8 = false;
         match decode_one(&mut r, o, dev) {
-            Some(op) => ops.push(op),
-            None => return (ops, End::Truncated(o)),
+            Some(op) => {
+                ops.push(op);
+                flags.push(r.non_utf8);
+            }
+            None => return (ops, flags, End::Truncated(o)),
         }
     }
-    (ops, End::Done)
+    (ops, flags, End::Done)
 }
 
 /// The only sequences whose encoding is ambiguous in the DVI format itself: the 223 bytes
@@ -446,6 +466,20 @@ pub struct Frame {
 pub enum Event {
     Char { page: u32, h: i64, hw: Vec<Adv>, v: i64, font: Option<u32>, c: u32 },
     Rule { page: u32, h: i64, hw: Vec<Adv>, v: i64, height: i32, width: i32 },
+    /// `xxx`: DVI-reading programs that implement specials act at the current position
+    /// (DVItype lists them in sequence with the positioned material).
+    Special { page: u32, h: i64, hw: Vec<Adv>, v: i64, len: usize },
+}
+
+/// Position at which a non-movement, non-typesetting command other than `xxx` occurs
+/// (`nop`, `fnt`, `fnt_def`, `push`, `pop`, `bop`, `eop`, `pre`, `post`, `post_post`):
+/// recorded for statistics only, the position of such a command has no meaning in DVI.
+#[derive(Clone, Debug, PartialEq, Eq)]
+pub struct Aux {
+    pub page: u32,
+    pub h: i64,
+    pub hw: Vec<Adv>,
+    pub v: i64,
 }
 
 #[derive(Clone, Debug, Default)]
@@ -467,6 +501,12 @@ pub struct Shapes {
     pub var_sets: u32,
     pub var_moves: u32,
     pub events: u32,
+    pub specials: u32,
+    /// An `xxx` met at a position other than the page origin.
+    pub special_away_from_origin: bool,
+    /// An `xxx` met directly after a `w/x/y/z` motion, with no typeset op in between: only the
+    /// position of the special itself observes that motion at that point.
+    pub special_after_var_motion: bool,
 }
 
 #[derive(Clone, Debug, Default)]
@@ -476,12 +516,16 @@ pub struct Tracker {
     pub font: Option<u32>,
     pub page: u32,
     pub events: Vec<Event>,
+    /// Positions of the other non-movement commands, in order (see [`Aux`]); filled only when `want_aux`.
+    pub aux: Vec<Aux>,
+    pub want_aux: bool,
     pub max_abs: i64,
     pub shapes: Shapes,
     taint_a: Option<usize>,
     taint_b: Option<usize>,
     bop_dropped_frames: bool,
     font_changed_at_depth: Option<usize>,
+    moved_by_var_since_event: bool,
     n: usize,
 }
 
@@ -514,6 +558,10 @@ impl Tracker {
     pub fn step(&mut self, op: &DOp) {
         let idx = self.n;
         self.n += 1;
+        if self.want_aux && !op.is_movement() && !matches!(op, DOp::Char { .. } | DOp::Rule { .. } | DOp::Xxx(_)) {
+            // position BEFORE the command acts (a `pop` is recorded where it is met)
+            self.aux.push(Aux { page: self.page, h: self.cur.h, hw: self.cur.hw.clone(), v: self.cur.v });
+        }
         match op {
             DOp::Char { c, set } => {
                 self.events.push(Event::Char { page: self.page, h: self.cur.h, hw: self.cur.hw.clone(), v: self.cur.v, font: self.font, c: *c });
@@ -613,7 +661,24 @@ impl Tracker {
                 }
                 self.font = Some(*f);
             }
-            DOp::Nop | DOp::Eop | DOp::Xxx(_) | DOp::FntDef { .. } | DOp::Pre { .. } | DOp::Post { .. } | DOp::PostPost { .. } => {}
+            DOp::Xxx(b) => {
+                self.events.push(Event::Special { page: self.page, h: self.cur.h, hw: self.cur.hw.clone(), v: self.cur.v, len: b.len() });
+                self.shapes.specials += 1;
+                if self.cur.h != 0 || self.cur.v != 0 || !self.cur.hw.is_empty() {
+                    self.shapes.special_away_from_origin = true;
+                }
+                if self.moved_by_var_since_event {
+                    self.shapes.special_after_var_motion = true;
+                }
+                self.moved_by_var_since_event = false;
+            }
+            DOp::Nop | DOp::Eop | DOp::FntDef { .. } | DOp::Pre { .. } | DOp::Post { .. } | DOp::PostPost { .. } => {}
+        }
+        if matches!(op, DOp::Move(_) | DOp::SetVar(..)) {
+            self.moved_by_var_since_event = true;
+        }
+        if matches!(op, DOp::Char { .. } | DOp::Rule { .. } | DOp::Bop { .. }) {
+            self.moved_by_var_since_event = false;
         }
         self.max_abs = self.max_abs.max(self.cur.h.abs()).max(self.cur.v.abs());
     }
@@ -631,6 +696,15 @@ impl Tracker {
 
 pub fn track(ops: &[DOp]) -> Tracker {
     let mut t = Tracker::default();
+    for op in ops {
+        t.step(op);
+    }
+    t
+}
+
+/// As [`track`], also recording [`Aux`] positions.
+pub fn track_aux(ops: &[DOp]) -> Tracker {
+    let mut t = Tracker { want_aux: true, ..Default::default() };
     for op in ops {
         t.step(op);
     }
